@@ -156,6 +156,10 @@ impl ObjectReceiver {
 
         self.init_blocks_partitioning();
         self.init_object_writer(now);
+        if self.state != State::Receiving {
+            // The object writer is refused by the builder or cannot be opened
+            return;
+        }
         self.push_from_cache(now);
 
         if self.oti.is_none() {
